@@ -115,14 +115,14 @@ def check_c04(tier):
 
 def check_c05(tier):
     rep = Report("C05", tier)
-    rep.cov["rule"] = ("MC_BundleRead derives from 4 valid bundles every single-field replacement of a declared section length / index offset / index length by "
+    rep.cov["rule"] = ("MC_BundleRead derives from 6 valid bundles (two with response lengths / offsets of exactly 255 / 256 / 257 so that truncated arguments have zero low bytes) every single-field replacement of a declared section length / index offset / index length by "
                        "boundary values (0, exact+-1, file size, 2^32, 2^63-1, 2^63, 2^64-2, 2^64-1), offset+length wrapping 2^64, sections swapped / renamed "
                        "to duplicates / unknown sections inserted at every position (and after 'responses') / removed, wrong section counts, truncation at every "
                        "offset, each with TLC's location semantics (Extract) and design invariants; every file is given to the real bundle.Read, plus real "
                        "bundles under bit flips / truncation / insert / delete at every offset and random byte strings; Trace_Bundle requires: Extract=ok => "
                        "accepted with exactly the content at the indexed locations; Extract=err => rejected with an error; never a panic. "
                        "distinct_nontrivial = distinct files")
-    r = tlc("MC_BundleRead", "SPECIFICATION Spec\nCONSTANTS Bases = {1, 2, 3, 4}\nINVARIANTS UnmutatedReads UnknownSkipped OutOfBoundsRefused Bounded\nCHECK_DEADLOCK FALSE\n",
+    r = tlc("MC_BundleRead", "SPECIFICATION Spec\nCONSTANTS Bases = {1, 2, 3, 4, 5, 6}\nINVARIANTS UnmutatedReads UnknownSkipped OutOfBoundsRefused Bounded\nCHECK_DEADLOCK FALSE\n",
             "C05/mc", timeout=3000)
     rep.add_tlc("MC_BundleRead", r)
     wd = workdir("C05")
